@@ -5,7 +5,7 @@ import networkx as nx
 
 from symx import AND, OR, NOT, EQ, SUM
 from vf.graphs import relabel
-from harness.reactor_common import (ALPHABET, sym_reaction, plain_substrate, its_iso, its_same, reactor,  # noqa
+from harness.reactor_common import (ALPHABET, sym_reaction, plain_substrate, its_iso, its_same, reactor, regenerated,  # noqa
                                     family_reaction, FAMILIES)
 
 PROPERTY = "C04"
@@ -17,10 +17,11 @@ META = dict(
               "a solver-chosen renumbering of the template; forward on the reactants and invert=True on the products; "
               "strategy all, and comp/bt where the component-aware semantics admit the identity placement; plus concrete families "
               "with a symmetric centre and symbolic substituents: [2+2] cycloaddition (4-atom centre), allylic shift (3 atoms) "
-              "[thorough: Diels-Alder, 6 atoms]; explicit-hydrogen branch of the precondition: keto-enol shift and esterification (with a non-migrating explicit hydrogen), centre and full-ITS template, forward [thorough: MPV]",
-        thorough="n=3 with charges, n=4 (hcount 0..1, charge 0, orders 0..1) for the centre template",
+              "[thorough: Diels-Alder, 6 atoms]; explicit-hydrogen branch of the precondition: keto-enol shift, esterification (with a non-migrating explicit hydrogen) and imine condensation (two hydrogens moving between the same pair of atoms), centre and full-ITS template, forward [thorough: MPV, deprotonation, and all of them backwards], reductive amination (C=O + H-N + H-H -> CH-N + H2O) forwards and backwards; and symbolically: 2 heavy atoms (element {C,O}, implicit count 0..1 equal on both sides, bond order per side 0..1) with 1-3 explicit hydrogens, each bonded per side to a solver-chosen heavy atom or (first two) to each other as H-H, at least one changing partner, centre and full ITS, forwards and backwards",
+        thorough="n=3 with charges, n=4 (hcount 0..1, charge 0, orders 0..1) for the centre template; explicit-hydrogen symbolic reactions with 3 heavy atoms and 1 explicit hydrogen",
     ),
-    outside=["SMILES rewriting of the reaction, Standardize comparison (RDKit)", "explicit-hydrogen templates beyond the three listed families",
+    outside=["SMILES rewriting of the reaction, Standardize comparison (RDKit): 'the reaction is among the results' is decided on graphs - a result isomorphic to the reaction's ITS, or (the weaker reading the standardised, atom-map-free SMILES comparison allows) a result with the same unmapped reactants and products",
+             "explicit-hydrogen reactions with 3 heavy atoms and >= 2 explicit hydrogens beyond the listed families (not exhausted within the budget), hydrogens bonded to two atoms, free protons other than the deprotonation family", "explicit-hydrogen templates beyond the listed families",
              "reactions whose centre is empty"],
     stubs=["NoCanon canonicaliser passed through the public canonicaliser= parameter"],
     assumptions=["balanced reaction: same atoms and elements on both sides, equal hydrogen and charge totals",
@@ -95,7 +96,7 @@ def h_own(E, n, kind, direction, hmax=2, cs=(0, 1), omax=2):
             continue
         res = reactor(sub, tmpl_r, strategy, invert).its_list
         n_res = max(n_res, len(res))
-        E.check(NOT(OR([its_iso(r, want) for r in res])), "own-template-regenerates-the-reaction",
+        E.check(NOT(regenerated(E, res, want)), "own-template-regenerates-the-reaction",
                 dict(info, strategy=strategy, n_results=len(res)))
     E.note(nontrivial=rc.number_of_nodes() >= 2 and n_res > 0)
     E.observe(n_res)
@@ -124,14 +125,14 @@ def h_family(E, family, direction):
     info = dict(family=family, direction=direction, sigma=sigma, n_results=len(res))
     cheap = OR([its_same(r, want) for r in res])
     if E.feasible(NOT(cheap)):
-        E.check(NOT(OR([its_iso(r, want) for r in res])), "own-template-regenerates-the-reaction", info)
+        E.check(NOT(regenerated(E, res, want)), "own-template-regenerates-the-reaction", info)
     else:
         E.check(False, "own-template-regenerates-the-reaction", info)
     E.note(nontrivial=len(res) > 1)
     E.observe(len(res))
 
 
-def h_family_xh(E, family, kind):
+def h_family_xh(E, family, kind, direction="fwd"):
     """the precondition's other branch: all centre hydrogens are written explicitly.  Concrete reactions (keto-enol shift,
     MPV transfer hydrogenation, esterification with an additional non-migrating explicit hydrogen) with symbolic
     substituents; template = centre or full ITS; default reactor flags (explicit_h=True); the reaction must be among the
@@ -165,33 +166,99 @@ def h_family_xh(E, family, kind):
         for a, b, o in fam["sub_bonds"]:
             if a in subs or b in subs:
                 g.add_edge(a, b, order=o)
+    for v, c in fam.get("charge_H", {}).items():
+        H.nodes[v]["charge"] = c
+    _regenerates_xh(E, G, H, fam["hyd"], kind, direction, dict(family=family, kind=kind, direction=direction))
+
+
+def _regenerates_xh(E, G, H, hyd, kind, direction, info, strategies=("all",)):
+    """(G, H) with explicit hydrogen nodes `hyd`: the template of the reaction, applied with the default reactor flags to the
+    molecule as an unmapped SMILES gives it, must have the reaction among its results."""
+    from synkit.Graph.ITS.its_construction import ITSConstruction
+    from synkit.Graph.ITS.its_decompose import get_rc
+    from synkit.Synthesis.Reactor.syn_reactor import SynReactor
+    from harness.reactor_common import NoCanon
+
     its = ITSConstruction.ITSGraph(G, H)
     tmpl = get_rc(its) if kind == "rc" else its
-    if kind == "rc" and any(v in fam["hyd"] and v not in tmpl for v in fam["hyd"]):
-        pass  # a non-migrating explicit hydrogen is simply not part of the centre
-    sub = h_to_implicit(G)
+
+    def as_parsed(g):
+        """hydrogens on heavy atoms are counts, H-H and a free proton are atoms"""
+        g2 = g.copy()
+        for v in hyd:
+            heavy_nb = [w for w in g2.neighbors(v) if g2.nodes[w]["element"] != "H"]
+            if heavy_nb:
+                g2.nodes[heavy_nb[0]]["hcount"] = g2.nodes[heavy_nb[0]]["hcount"] + 1
+                g2.remove_node(v)
+        return g2
+
+    if direction == "fwd":
+        sub, want_raw, invert = as_parsed(G), its, False
+    else:
+        sub, want_raw, invert = as_parsed(H), ITSConstruction.ITSGraph(H, G), True
     for v in sub.nodes:
         sub.nodes[v]["atom_map"] = 0
         sub.nodes[v]["neighbors"] = []
-    res = SynReactor(substrate=sub, template=tmpl, canonicaliser=NoCanon(), strategy="all").its_list
-    # expected: the reaction with migrating hydrogens explicit and every other hydrogen implicit
-    moving = [v for v in fam["hyd"] if {frozenset(e[:2]) for e in fam["G"] if v in e[:2]} != {frozenset(e[:2]) for e in fam["H"] if v in e[:2]}]
-    def fold(g):
-        g2 = g.copy()
-        for v in fam["hyd"]:
-            if v not in moving:
-                for w in list(g2.neighbors(v)):
-                    g2.nodes[w]["hcount"] = g2.nodes[w]["hcount"] + 1
-                g2.remove_node(v)
-        return g2
-    want = ITSConstruction.ITSGraph(fold(G), fold(H))
-    info = dict(family=family, kind=kind, n_results=len(res))
-    E.check(NOT(OR([its_iso(r, want) for r in res])), "own-template-regenerates-the-reaction", info)
-    E.note(nontrivial=len(res) > 0)
-    E.observe(len(res))
+    # how many spectator hydrogens a result writes as nodes is not part of the reaction: compare after folding every
+    # hydrogen whose only bond is an unchanged single bond to a heavy atom into that atom's count on both sides
+    want = fold_spectator_h(want_raw)
+    n_res = 0
+    for strategy in strategies:
+        res = SynReactor(substrate=sub, template=tmpl, canonicaliser=NoCanon(), strategy=strategy, invert=invert).its_list
+        n_res = max(n_res, len(res))
+        E.check(NOT(regenerated(E, res, want, fold_spectator_h)), "own-template-regenerates-the-reaction",
+                dict(info, strategy=strategy, n_results=len(res)))
+    E.note(nontrivial=n_res > 0)
+    E.observe(n_res)
 
 
-HARNESSES = {"own": h_own, "family": h_family, "family_xh": h_family_xh}
+def h_own_xh(E, n, nh, kind, direction, omax=1):
+    """all centre hydrogens explicit, symbolically: n heavy atoms (symbolic element, implicit count equal on both sides,
+    bond orders per side) and nh explicit hydrogens, each bonded on either side to a solver-chosen heavy atom or (nh=2) to
+    the other hydrogen (H-H); at least one hydrogen changes its partner."""
+    G, H, rs = sym_reaction(E, "r", n, els=("C", "O"), hs=(0, 1), cs=(0,), orders=tuple(range(omax + 1)))
+    nodes = list(G.nodes)
+    E.assume(AND([EQ(rs["h"]["G", v], rs["h"]["H", v]) for v in nodes]))
+    hyd = [n + 1 + j for j in range(nh)]
+    att = {}
+    heavy_opts = list(range(1, n + 1))
+    for side, g in (("G", G), ("H", H)):
+        for j, hv in enumerate(hyd):
+            g.add_node(hv, element="H", aromatic=False, hcount=0, charge=0, atom_map=hv)
+            # 0 = bonded to the other hydrogen of the first pair (H-H); a third hydrogen always sits on a heavy atom
+            att[side, hv] = int(E.choice("a%s%d" % (side, j), heavy_opts + ([0] if nh >= 2 and j < 2 else [])))
+        if nh >= 2:
+            E.assume((att[side, hyd[0]] == 0) == (att[side, hyd[1]] == 0))
+        for hv in hyd:
+            if att[side, hv] == 0:
+                g.add_edge(hyd[0], hyd[1], order=1)
+            else:
+                g.add_edge(att[side, hv], hv, order=1)
+    E.assume(any(att["G", hv] != att["H", hv] for hv in hyd))
+    if nh >= 2:  # the first two hydrogens are interchangeable: one representative per swap
+        E.assume((att["G", hyd[0]], att["H", hyd[0]]) <= (att["G", hyd[1]], att["H", hyd[1]]))
+    _regenerates_xh(E, G, H, hyd, kind, direction,
+                    dict(n=n, nh=nh, kind=kind, direction=direction, attach={"%s%d" % k: v for k, v in att.items()}))
+
+
+def fold_spectator_h(its):
+    g = its.copy()
+    for v in list(g.nodes):
+        t = g.nodes[v]["typesGH"]
+        if t[0][0] != "H" or t[1][0] != "H" or g.degree(v) != 1:
+            continue
+        (w,) = list(g.neighbors(v))
+        o = g[v][w]["order"]
+        tw = g.nodes[w]["typesGH"]
+        if tuple(o) != (1, 1) or tw[0][0] == "H" or t[0][3] != 0 or t[1][3] != 0:
+            continue
+        g.nodes[w]["typesGH"] = (tuple(tw[0][:2]) + (tw[0][2] + 1,) + tuple(tw[0][3:]),
+                                 tuple(tw[1][:2]) + (tw[1][2] + 1,) + tuple(tw[1][3:]))
+        g.remove_node(v)
+    return g
+
+
+HARNESSES = {"own": h_own, "family": h_family, "family_xh": h_family_xh, "own_xh": h_own_xh}
 
 
 def shards(tier, seed):
@@ -203,9 +270,25 @@ def shards(tier, seed):
     for fam in ("2+2", "ene-shift") + (("DA",) if tier == "thorough" else ()):
         for direction in ("fwd", "bwd"):
             sh.append(dict(h="family", params=dict(family=fam, direction=direction)))
-    for fam in ("enol", "ester") + (("MPV",) if tier == "thorough" else ()):
+    for fam in ("enol", "ester", "imine") + (("MPV", "deprot") if tier == "thorough" else ()):
         for kind in ("rc", "its"):
             sh.append(dict(h="family_xh", params=dict(family=fam, kind=kind)))
+    # a template atom that keeps an implicit hydrogen next to an explicit one (reductive amination backwards: water's
+    # two hydrogens go to N and to H-H)
+    for kind in ("rc", "its"):
+        for direction in ("fwd", "bwd"):
+            sh.append(dict(h="family_xh", params=dict(family="redam", kind=kind, direction=direction)))
+    for nh in (1, 2, 3):
+        for kind in ("rc", "its"):
+            for direction in ("fwd", "bwd"):
+                sh.append(dict(h="own_xh", params=dict(n=2, nh=nh, kind=kind, direction=direction)))
+    if tier == "thorough":
+        for kind in ("rc", "its"):
+            for direction in ("fwd", "bwd"):
+                sh.append(dict(h="own_xh", params=dict(n=3, nh=1, kind=kind, direction=direction)))
+        for fam in ("enol", "ester", "imine", "MPV", "deprot"):
+            for kind in ("rc", "its"):
+                sh.append(dict(h="family_xh", params=dict(family=fam, kind=kind, direction="bwd")))
     if tier == "thorough":
         for kind in ("rc", "its"):
             for direction in ("fwd", "bwd"):
